@@ -213,6 +213,28 @@ def check(an: Analysis) -> None:
         raise AnalysisError(f"only {len(uses)} uses of ScopeMetrics._nested found (confirmed: 6)")
     mf = prog.fn(f"{SM}.metrics")
     dm = Deps(prog, mf)
+    # every path of metrics() hands back a list of values: the scope's own ones when no merge function is given
+    from ..kinds import Scenario as _ScnM
+
+    gm_ = an.cfg(mf)
+
+    def env_nomerge(e: ast.AST):
+        if is_name(e, "merge"):
+            return None
+        return NOVALUE
+
+    scm = _ScnM(gm_, dm, env_nomerge)
+    live_m = [n for n in gm_.nodes if n.kind == "return" and n.id in scm.reach]
+    ob.inst(mf, None, f"metrics() without merge: {len(live_m)} return(s)")
+    if not live_m:
+        ob.fail(mf, None, "metrics() without a merge function returns nothing")
+    for r in live_m:
+        oo_ = dm.of(r.ast.value) if r.ast.value is not None else frozenset()  # type: ignore[union-attr]
+        if "attr:self._metrics" not in oo_:
+            ob.fail(mf, r.ast, "metrics() without a merge function does not return the scope's own recorded values")
+    for r in [n for n in gm_.nodes if n.kind == "return" and n.id not in scm.reach]:
+        if r.ast.value is None or (isinstance(r.ast.value, ast.Constant) and r.ast.value.value is None):  # type: ignore[union-attr]
+            ob.fail(mf, r.ast, "the merged view is not returned")
     # the merged view depends on the merge function: nothing computed with it may be kept on the scope without being keyed by it
     for n in mf.own_nodes():
         if isinstance(n, (ast.Assign, ast.AnnAssign)) and getattr(n, "value", None) is not None:
